@@ -27,6 +27,9 @@ CHECKS = {
  'C08': dict(cat=MC, technique='TLA+ transcription of WoehlerCurve (transform_to_failure_probability, _make_k, basquin_cycles/_load, Miner variants) on the log2 exponent lattice; TLC checks the algebraic laws on every lattice state; each state evaluated through the real accessor',
    text='On powers of two with failure probabilities 10/50/90 % the whole algebra is exact integer arithmetic on exponents, so TLC decides inverse/monotone/knee/slope/Miner/scatter-ratio/group-law/identity on the specification for the full lattice, and every lattice state is an implementation test with the exact expected value (scalar, integer-typed, array, Series and DataFrame x Series broadcast forms; non-mutation of source and signal).',
    note='lattice restriction (powers of two, three probabilities, slopes k and k/2); rel 1e-9 because the code shifts with 10**x', ref='5 C08'),
+ 'C11': dict(cat=MC, technique='TLA+ model of Miner damage and the Gassner identity on the log2 lattice with exact integer sums (spec/miner); TLC enumerates curves x collectives incl. every emptiness pattern; each state evaluated through fatigue.damage / gassner_miner_* / solidity for 4 collective layouts',
+   text='Linearity, order independence, rule ordering and the Gassner identity (damage exactly 1 at the predicted cycles) are exact statements on power-of-two data; TLC proves them on the specification for every collective of the bounded instance (counts include 0 at the top, bottom and in between) and every state is an implementation test with exact expectation.',
+   note='lattice restriction; fixed defect C11-empty-top-class; open finding C11-haibach-below-SD', ref='5 C11'),
 }
 PENDING = 'check not built yet in this round (planned, see DESIGN.md section 5)'
 NA = {
